@@ -12,12 +12,15 @@ from hypothesis import strategies as hst
 
 from sqv import core, hyp
 from sqv.core import Failure, Stats
+from sqv.gen import typed
+from sqv.spec import unparse
 from sqv.spec.neutral import neutral, same_tree
 from sqv.values import canon
 
 ID = 'C17'
 LEVEL = 'exploration'
-RULE = ('Hypothesis call sequences (2-30 calls of parse(src) / eval(src, names_i, budget)) over a pool of sources with '
+RULE = ('Hypothesis call sequences (2-30 calls of parse(src) / eval(src, names_i, budget)) over a pool of fixed sources and '
+        'generated typed programs (every operator, literal form, slice, conditional, lambda and builtin) with '
         'repeats, near-duplicates differing only in surrounding whitespace (space, tab, \\n, \\r\\n and the characters str.strip '
         'removes but the lexer rejects: \\r, \\x0c, NBSP), failing sources (syntax, lexical, runtime, ops-limit, reserved word) '
         'that later succeed under other names or budgets, names that shadow builtins; after every call the host mutates every '
@@ -102,7 +105,17 @@ def host_fn(v=None):
     return D(99)
 
 
-def make_names():
+def make_names(extra=None):
+    base = _base_names()
+    if extra:
+        import copy
+        for m in base:
+            for k, v in extra.items():
+                m.setdefault(k, copy.deepcopy(v))
+    return base
+
+
+def _base_names():
     return [
         {'x': D(5), 'y': [D(3), D(1)], 'd': {'k': D(1)}, '%a b%': D(1), '%a  b%': D(2)},
         {'x': D(1), 'y': [], 'd': {}, 'len': host_fn, 'g': host_fn},
@@ -170,7 +183,7 @@ def run_sequence(ops, case):
     names = {}
     for wname in caches:
         W[wname].parse_cache = caches[wname]
-        names[wname] = make_names()
+        names[wname] = make_names(core.dec(case['env']) if case.get('env') else None)
     fails = []
     info = {'calls': 0, 'failing_calls': 0}
 
@@ -244,7 +257,20 @@ def run_case(case):
 def cases(draw):
     n = lambda k: draw(hst.integers(0, k - 1))  # noqa
     pick = lambda xs: xs[n(len(xs))]  # noqa
-    pool = [pick(BASE) for _ in range(1 + n(4))]
+    pool = []
+    env = None
+    for _ in range(1 + n(4)):
+        if n(2):
+            pool.append(pick(BASE))
+        else:
+            # a generated program: every operator, literal form (multi-entry dicts, nested lists), slice, conditional and builtin
+            stmts, env0, _ = draw(typed.programs(max_stmts=3, max_depth=3, regex=False))
+            env = env or env0
+            try:
+                render = unparse.minimal_stmt if n(2) else unparse.full_stmt
+                pool.append('\n'.join(render(s) for s in stmts))
+            except ValueError:
+                pool.append(pick(BASE))
     ops = []
     for _ in range(2 + n(29)):
         src = pick(pool)
@@ -253,7 +279,7 @@ def cases(draw):
             ops.append(('parse', src))
         else:
             ops.append(('eval', src, n(3), pick(BUDGETS), pick([0, 0, 0, 7, 8])))
-    return {'ops': ops}
+    return {'ops': ops, 'env': core.enc(env) if env else None}
 
 
 def nontrivial(ops):
